@@ -16,7 +16,8 @@
    attempted here.  SET OF members added in another order are covered by (1) on the encoder model;
    (2) for SET OF compares histories reaching the same list. *)
 From Coq Require Import Sorting.Permutation.
-From PV Require Import Spec.ListSpec Model.Enc Proofs.ContainerCodecDefs Proofs.ContainerCodecSort Proofs.ContainerCodec.
+From PV Require Import Spec.ListSpec Model.Types Model.TableTypes Model.Enc Proofs.ContainerCodecDefs Proofs.ContainerCodecSort Proofs.ContainerCodec
+     Proofs.DerAbsFunction.
 Local Open Scope nat_scope.
 
 (* ---- (1) the encoder model ---- *)
@@ -151,3 +152,18 @@ Proof.
   - intros a b Ha Hb E. cbn [In] in Ha, Hb.
     destruct Ha as [<-|[<-|[<-|[]]]]; destruct Hb as [<-|[<-|[<-|[]]]]; try reflexivity; vm_compute in E; discriminate.
 Qed.
+
+(* ---- (3) the codec-level statement, for every input ---- *)
+
+(* DER bytes are a function of the abstract value: for EVERY type of the universe (any tag stack,
+   SEQUENCE, SET, SEQUENCE OF, SET OF, CHOICE, ANY, to any depth) and any two values of it with the same
+   abstract content - SET OF members in another order, a DEFAULT given explicitly or left out, text
+   or octets, another REAL representation of the same number - the DER encodings are byte-identical.
+   c04_val: the value fits the type, decimal REALs are normalised (as the library's constructor does),
+   an untagged ANY inside a SET OF is one complete TLV *)
+Theorem C04_der_is_a_function_of_the_abstract_value : forall T v1 v2 b1 b2 d k,
+  c04_ty all_ty T = true -> c04_val T v1 = true -> c04_val T v2 = true ->
+  aval_eqb (abs T v1) (abs T v2) = true ->
+  encode DER d k T v1 = Ok b1 -> encode DER d k T v2 = Ok b2 -> b1 = b2.
+Proof. exact der_abs_function. Qed.
+Print Assumptions C04_der_is_a_function_of_the_abstract_value.
